@@ -811,6 +811,19 @@ def lambda_skeleton_rule(ctx):
             rr.fail(f"C11-R6|Lambda|signature|{re.sub('[^a-z]+', '-', bad.lower())[:40]}", f"unparse_Lambda: {bad}: `{got[:140]}` [{short_ctx(p, 100)}]", what=what)
         else:
             rr.ok(what, sample={"rule": "C11-R6", "context": short_ctx(p, 80), "skeleton": got[:120]})
+    # an index that pairs the entries of one list with the positions of another must walk the WHOLE
+    # list: in a filtered copy the positions have shifted by the number of entries left out
+    seen_f = set()
+    for p in paths:
+        for c in getattr(p, "carried", []):
+            if "filtered(" in str(c["over"]) and isinstance(c["init"], (Sym, Cst)) and (c["name"], c["site"]) not in seen_f:
+                seen_f.add((c["name"], c["site"]))
+                rr.instances += 1
+                rr.fail(
+                    f"C11-R6|Lambda|{c['name']}|index-over-filtered-list",
+                    f"unparse_Lambda ({c['site']}): the index `{c['name']}` walks `{c['over']}`, a copy of the list from which entries were removed, and is used as a position in the parameter list: kw_defaults has one entry PER keyword-only parameter (None = no default), so after dropping the None entries the defaults move to other parameters (`def f(*, k='x', m)` becomes `lambda *,k,m='x'`)",
+                    where=c["site"], what=f"Lambda|index|{c['name']}|filtered",
+                )
     # an index that walks a positionally aligned list must be updated on EVERY iteration
     by_var = {}
     for p in paths:
